@@ -286,16 +286,22 @@ func scalarReflectFromGo(schema *schema_j5pb.Field, value interface{}) (protoref
 		}
 
 	case *schema_j5pb.Field_Float:
+		// text is rounded once, to the precision of the field: reading a FLOAT32
+		// as float64 first and converting afterwards rounds twice
+		bitSize := 64
+		if st.Float.Format == schema_j5pb.FloatField_FORMAT_FLOAT32 {
+			bitSize = 32
+		}
 		switch val := value.(type) {
 		case json.Number:
 			var err error
-			value, err = val.Float64()
+			value, err = strconv.ParseFloat(val.String(), bitSize)
 			if err != nil {
 				return pv, err
 			}
 		case string:
 			var err error
-			value, err = strconv.ParseFloat(val, 64)
+			value, err = strconv.ParseFloat(val, bitSize)
 			if err != nil {
 				return pv, err
 			}
